@@ -1203,6 +1203,12 @@ def run_C12(ctx):
             if rng.random() < 0.4:
                 two, _, _ = gen.run_op(rng, dt_si=dt, steps=(3, 8), unit='sec')
                 sched.append(two)
+            if rng.random() < 0.25:
+                # the user replaces the load function after the solver has been built, before the first run: the rerun
+                # (same or new solver) sees the same, current, load
+                c0 = spec['load']['coef']
+                sched = [{'op': 'load', 'coef': [c0[0] * rng.choice([0.5, 2, -1]) + rng.choice([0, 0.25]), c0[1], c0[2], c0[3],
+                                                   0.0 if len(c0) < 5 else c0[4]]}] + sched
             case['ops_a'] = sched
             tail = [{'op': 'reset'}, {'op': 'init', 'pos': spec['init']['pos'], 'speed': spec['init']['speed']}]
             if kind == 'rerun-new':
@@ -1244,8 +1250,10 @@ def eval_c12(ctx, case):
     # the longer of the two schedules against the Lean model (whole history, when short enough)
     total = sum(r.get('n_after', 0) - r['n_before'] for r in trb['ops'] if r['op'] == 'run')
     simple_rules = all(r['type'] == 'const' for r in (spec.get('rules') or []))
-    if ctx.driver.available and not simple_rules:
-        # state-dependent rules: lock-step (exact rationals of whole histories explode)
+    load_replaced = any(o['op'] == 'load' for o in sb['ops'])
+    if ctx.driver.available and (not simple_rules or load_replaced):
+        # state-dependent rules: lock-step (exact rationals of whole histories explode); also when the load function is
+        # replaced during the schedule (the whole-history request carries one load function)
         reqs = sim.lockstep_requests(sb, trb, max_steps=40)
         for (j, _), ans in zip(reqs, ctx.driver.ask([ln for _, ln in reqs])):
             d = sim.compare_step(trb, j, ans)
